@@ -76,6 +76,11 @@ def step_term(st):
                                                     coq_bool(op.get("recursive", False)), pre, post, rc)
             return "check_reset %s %s %s %s %s" % ("[" + "; ".join(coq_str(g) for g in op["paths"]) + "]",
                                                    coq_bool(op.get("recursive", False)), pre, post, rc)
+        if o == "commit" and st.rc.startswith("err") and st.pre["staged"].get(oid) is not None \
+                and st.post["staged"].get(oid) is not None:
+            # a refused / failed commit: the staged inventory is unchanged or what refused_commit says (890d206)
+            pre, pinv = pre_term(st, oid, toks)
+            return "check_refused_commit %s %s" % (pre, absinv.abs_inventory(st.post["staged"][oid], toks))
         if o in ("commit", "upgrade_object"):
             if st.rc != "ok":
                 return None
